@@ -276,6 +276,86 @@ func checkC17(r *Result) {
 	r.Info["prepare_field_sources"] = prepMap
 	r.Info["process_field_checks"] = procMap
 	r.check(nExtractorCalls == 3, "COMMIT-INJECTED", "(*app.ProposalHandler).ProcessProposalHandler # calls the three extractors", P.Pos(proc.Pos()), fmt.Sprintf("%d extractor calls", nExtractorCalls))
+	// ... and all of it lies on every path to ACCEPT: with vote extensions enabled, a proposal is accepted only after
+	// the injected tx decoded, the injected commit validated, every extractor succeeded and every comparison was equal
+	{
+		tmA := NewTermer()
+		var eqNames []string
+		eqSeen := map[string]bool{}
+		for _, b := range proc.Blocks {
+			for _, in := range b.Instrs {
+				if c, ok := in.(*ssa.Call); ok && CalleeName(c.Common()) == "reflect.DeepEqual" {
+					k := tmA.Of(c).String()
+					if !eqSeen[k] {
+						eqSeen[k] = true
+						eqNames = append(eqNames, k)
+					}
+				}
+			}
+		}
+		okNil := func(callee string) func(rel *Term) (bool, bool) {
+			return func(rel *Term) (bool, bool) {
+				if rel.Op == "==" && len(rel.Args) == 2 && rel.Args[1].Op == "const:nil" {
+					a := rel.Args[0]
+					if strings.HasPrefix(a.Op, "ext:") && len(a.Args) == 1 {
+						a = a.Args[0]
+					}
+					if a.Op == "call:"+callee {
+						return true, true
+					}
+				}
+				return false, false
+			}
+		}
+		atoms := []Atom{
+			{Name: "enabled", Stable: true, Cond: func(rel *Term) (bool, bool) {
+				return rel.Op == "<" && rel.Contains("VoteExtensionsEnableHeight"), true
+			}},
+			{Name: "decodedOK", Stable: true, Cond: okNil("encoding/json.Unmarshal")},
+			{Name: "validatedOK", Stable: true, Cond: okNil("github.com/cosmos/cosmos-sdk/baseapp.ValidateVoteExtensions")},
+		}
+		need := []string{"decodedOK", "validatedOK"}
+		for _, e := range []string{"CheckInitialSignaturesFromLastCommit", "CheckValsetSignaturesFromLastCommit", "CheckOracleAttestationsFromLastCommit"} {
+			atoms = append(atoms, Atom{Name: e + "OK", Stable: true, Cond: okNil("(*app.ProposalHandler)." + e)})
+			need = append(need, e+"OK")
+		}
+		for i, k := range eqNames {
+			key := k
+			nm := fmt.Sprintf("equal%d", i)
+			atoms = append(atoms, Atom{Name: nm, Stable: true, Cond: func(rel *Term) (bool, bool) { return rel.String() == key, true }})
+			need = append(need, nm)
+		}
+		pa := AnalyzePaths(proc, atoms)
+		okAll, nAcc, det := true, 0, ""
+		for _, b := range proc.Blocks {
+			ret, isRet := b.Instrs[len(b.Instrs)-1].(*ssa.Return)
+			if !isRet || returnsReject(b) || b == proc.Recover {
+				continue
+			}
+			nAcc++
+			if bad := pa.Require(ret, func(v map[string]bool) bool {
+				if !v["enabled"] {
+					return true
+				}
+				for _, n := range need {
+					if !v[n] {
+						return false
+					}
+				}
+				return true
+			}); len(bad) > 0 {
+				okAll, det = false, clip(fmt.Sprint(bad), 300)
+			}
+		}
+		matched := len(pa.Matched["enabled"]) > 0
+		for _, n := range need {
+			if len(pa.Matched[n]) == 0 {
+				matched = false
+				det += " no test of " + n
+			}
+		}
+		r.check(okAll && nAcc >= 1 && matched && len(eqNames) == 8, "COMMIT-INJECTED", "(*app.ProposalHandler).ProcessProposalHandler # ACCEPT only after decode, validation, the three extractors and all eight comparisons succeeded", P.Pos(proc.Pos()), fmt.Sprintf("%d accepting returns, %d comparisons %s", nAcc, len(eqNames), det))
+	}
 	// siblings: Prepare calls the same three extractors
 	prepExt := map[string]bool{}
 	for _, cs := range P.CallSitesIn(prep) {
@@ -328,6 +408,34 @@ func checkC17(r *Result) {
 		}
 		r.fn(name)
 		checkLockstep(r, fn)
+		// only votes that are part of the commit are read: ValidateVoteExtensions verifies the extension signature of
+		// exactly those (BlockIDFlagCommit), an absent or nil vote carries an unverified extension
+		{
+			commitFlag := "const:" + enumValPath(P, "github.com/cometbft/cometbft/proto/tendermint/types", "BlockIDFlagCommit")
+			ps := AnalyzePaths(fn, []Atom{{Name: "committed", Cond: func(rel *Term) (bool, bool) {
+				if rel.Op == "==" && len(rel.Args) == 2 && strings.HasSuffix(rel.Args[0].Op, "ExtendedVoteInfo.BlockIdFlag") && strings.HasPrefix(rel.Args[0].Op, "field:") && rel.Args[1].Op == commitFlag {
+					return true, true
+				}
+				return false, false
+			}}})
+			n, okAll := 0, true
+			for _, b := range fn.Blocks {
+				for _, in := range b.Instrs {
+					c, ok := in.(*ssa.Call)
+					if !ok {
+						continue
+					}
+					if bi, ok := c.Call.Value.(*ssa.Builtin); !ok || bi.Name() != "append" {
+						continue
+					}
+					n++
+					if bad := ps.Require(in, func(v map[string]bool) bool { return v["committed"] }); len(bad) > 0 {
+						okAll = false
+					}
+				}
+			}
+			r.check(okAll && n > 0 && len(ps.Matched["committed"]) > 0, "LOCKSTEP", name+" # data is taken only from votes flagged as committed (the ones whose extension signature was verified)", P.Pos(fn.Pos()), fmt.Sprintf("%d append sites", n))
+		}
 	}
 	// REGISTER-ONCE
 	if ci := P.Func("(*app.ProposalHandler).CheckInitialSignaturesFromLastCommit"); ci != nil {
@@ -555,4 +663,16 @@ var c17Table = map[string]triage{
 	`(x/bridge/keeper.Keeper).EVMAddressFromSignatures # index:(x/bridge/keeper.Keeper).TryRecoverAddressWithBothIDs()#0[1]`:   {"accepted", "as above: two addresses on success"},
 	`(x/bridge/keeper.Keeper).GetValidatorDidSignCheckpoint # index:x/bridge/types.BridgeValsetSignatures.Signatures[loopvar]`: {"linked", "the signature array of a checkpoint is sized by the previous validator set that is iterated here (C16 SLOT-CORRESPONDENCE)"},
 	`(x/bridge/keeper.Keeper).TryRecoverAddressWithBothIDs # index:param1[:64]`:                                                {"linked", "the only ABCI++ caller chain (CheckInitialSignaturesFromLastCommit -> EVMAddressFromSignatures) is entered only with both signatures >= 64 bytes (VOTEEXT-FAIL length obligation above)"},
+}
+
+// enumValPath returns the exact value of a package-level constant of any loaded package ("?" if absent).
+func enumValPath(P *Prog, pkgPath, name string) string {
+	for _, sp := range P.SSA.AllPackages() {
+		if sp.Pkg != nil && sp.Pkg.Path() == pkgPath {
+			if c, ok := sp.Pkg.Scope().Lookup(name).(*types.Const); ok {
+				return c.Val().ExactString()
+			}
+		}
+	}
+	return "?"
 }
